@@ -388,3 +388,15 @@ PROPS['C16'] = dict(
     level_note='The statement does not define "terms involved"; the absolute-value shadow in midpoint coordinates is used (DESIGN 6.6). Exact results come from the library instantiated with Q, itself verified by C01-C07.',
     assumptions=[EXACT, 'IEEE-754 arithmetic, no -ffast-math; x87 long double'],
 )
+
+PROPS['C17'] = dict(
+    units=[dict(target=T('h_quad', parts=4), quick=dict(scale=1.0), thorough=dict(scale=6.0, shards=16))],
+    rule=('spline pairs (orders (0..3)^2, constructed placement classes: identical, nested, partial, touching, gap, interval-free), polynomial weights of degree 0..3 with dyadic coefficients, n = 1..6 (template parameter), double and long double, so both sides of 2n-1 >= order1+order2+d occur for every degree. '
+          'Oracle: (both sides) an independent n-point Gauss-Legendre rule (Newton on the Legendre recurrence in long double, summed EXACTLY in Q over the common intervals of the set model) - pins "extends over exactly the common intervals" also where the rule is inexact; '
+          '(exact side) the exact integral of m1*f*m2 from the reference model and the library\'s own analytic BilinearForm with sum f_k X<k> as operator; zero without common interval; additivity over single-interval restrictions of m1. Tolerance 2^12 * eps * S with S the absolute-value shadow integral; observed maxima in metrics_max. '
+          'Non-trivial: >= 1 common interval and (windows not identical or orders differ); counters per side, n, placement, degree.'),
+    technique='rapidcheck generation; oracle = exact rational integral (where the rule is exact) and an independent Gauss-Legendre rule summed exactly over the set-model intervals',
+    level_text='Generated-input search on both sides of the exactness bound with two independent oracles and a stated rounding allowance with measured head-room. Sampling, not proof.',
+    level_note='Trusted: GMP, ref.h, the harness Gauss-Legendre nodes (long double Newton), boost::math::quadrature::gauss as shipped.',
+    assumptions=[EXACT, SAN],
+)
